@@ -17,7 +17,9 @@ import (
 	"verifharness/props/conc"
 )
 
-func init() { proc.Register("c05-worker", func(a []string) int { conc.Setup(13, 25); return par.Serve(a, round) }) }
+func init() {
+	proc.Register("c05-worker", func(a []string) int { conc.Setup(13, 25); return par.Serve(a, round) })
+}
 
 type TxnRes struct {
 	ID   string   `json:"id"`
